@@ -39,11 +39,18 @@ def gen(tier, rng):
             arg = [rng.randrange(0, s // 2) for s in shape]
         elif post == "rebin":
             arg = [rng.choice([d for d in range(1, s + 1) if s % d == 0 and s // d >= 2]) for s in shape]
+        # two of the tables may form ONE two-table Quantity coordinate, added with its axes in the order drawn
+        # (ascending or descending); rebin of such a coordinate onto axes of different lengths is a known finding (C19)
+        pair = None
+        cand = [k for k in range(len(tabs) - 1) if tabs[k][0] != tabs[k + 1][0]]
+        if cand and post != "rebin" and rng.random() < 0.5:
+            pair = rng.choice(cand)
         seedk = rng.randrange(10 ** 6)
-        key = f"{shape}|{A}|{b}|{tabs}|{post}|{arg}"
+        key = f"{shape}|{A}|{b}|{tabs}|{post}|{arg}|{pair}"
         cases.append({"key": key, "stratum": f"{post}-{len(tabs)}tables", "shape": shape, "A": A, "b": b, "tabs": tabs,
-                      "post": post, "arg": arg, "rs": seedk, "nontrivial": bool(tabs),
-                      "show": {"shape": shape, "primary": [A, b], "extra_coords(axis,slope,intercept)": tabs, "then": [post, arg]}})
+                      "post": post, "arg": arg, "rs": seedk, "pair": pair, "nontrivial": bool(tabs),
+                      "show": {"shape": shape, "primary": [A, b], "extra_coords(axis,slope,intercept)": tabs, "then": [post, arg],
+                               "tables_forming_one_two_axis_coordinate": None if pair is None else [pair, pair + 1]}})
     return cases
 
 
@@ -65,6 +72,16 @@ def build(case):
             except Exception:  # noqa
                 pass
         s = Fr(*slope)
+        pair = case.get("pair")
+        if pair is not None and k == pair + 1:
+            continue                   # added together with its partner
+        if pair is not None and k == pair:
+            ax2, slope2, icpt2 = case["tabs"][k + 1]
+            s2 = Fr(*slope2)
+            cube.extra_coords.add((f"e{k}", f"e{k + 1}"), (ax, ax2),
+                                  ((np.arange(shape[ax]) * float(s) + icpt) * u.m, (np.arange(shape[ax2]) * float(s2) + icpt2) * u.m),
+                                  physical_types=(f"custom:w{100 + k}", f"custom:w{100 + k + 1}"))
+            continue
         cube.extra_coords.add(f"e{k}", ax, (np.arange(shape[ax]) * float(s) + icpt) * u.m, physical_types=f"custom:w{100 + k}")
     if case["post"] == "slice":
         cube = cube[tuple(slice(a, None) for a in case["arg"])]
@@ -87,7 +104,16 @@ def _expr(case):
     elif case["post"] == "rebin":
         prim = {"k": "res", "w": prim, "f": [[f, 1] for f in arg[::-1]],
                 "o": [[f - 1, 2] for f in arg[::-1]]}
-    tabs = sorted(enumerate(case["tabs"]), key=lambda kt: kt[1][0])
+    # coordinates in the order ExtraCoords keeps them: stable sort by the FIRST axis of each coordinate; the two tables
+    # of a two-axis coordinate stay together in the order they were given
+    pair = case.get("pair")
+    coords = []
+    for k, t in enumerate(case["tabs"]):
+        if pair is not None and k == pair + 1:
+            continue
+        coords.append((t[0], [k, k + 1] if (pair is not None and k == pair) else [k]))
+    coords.sort(key=lambda c: c[0])
+    tabs = [(k, case["tabs"][k]) for _, ks in coords for k in ks]
     if not tabs:
         return prim, None
     slopes, icpts, ids, mapping = [], [], [], []
